@@ -3,7 +3,7 @@ import FeatherModel.Model.TotalCode
 import FeatherModel.Model.TotalDyn
 import FeatherModel.Model.TotalText
 import FeatherModel.Model.TotalWriter
-import FeatherModel.Model.ClassRead
+import FeatherModel.Model.TotalClass
 
 /-!
 C16 driver: the outcome class (`ok …` | `err e` | `panic <site>`) of every parser model.  See
@@ -19,16 +19,6 @@ def outAns {α : Type} (f : α → Sexp) (r : Outcome α × Acct) : Ans :=
   | .panic s => .panic (Sites.report s)
 
 def unitS : Unit → Sexp := fun _ => tag "u"
-
-/-- C01's whole-file reader model: its crash sites are sites 1, 2, 3 and the stack -/
-def classReadOutcome (b : Bytes) : Outcome Unit :=
-  match ClassRead.read b with
-  | .ok _ => .ok ()
-  | .err => .err
-  | .crash .labelsRangeAdd => .panic Sites.labelsRange
-  | .crash .labelsMaxId => .panic Sites.labelsMaxId
-  | .crash .frameOffsetAdd => .panic Sites.frameOffset
-  | .crash .recursion => .panic Sites.stackDynamic
 
 def argOf : Sexp → Option Dyn.Arg
   | .atom "i" => some .int
@@ -54,15 +44,13 @@ def runPlain (op : String) (args : List Sexp) : Option (Outcome Sexp × Acct) :=
   let u {α : Type} (r : Outcome α × Acct) (f : α → Sexp) : Outcome Sexp × Acct :=
     (match r.1 with | .ok a => .ok (f a) | .err => .err | .panic s => .panic s, r.2)
   match op, args with
-  | "classread", [b] => do
-    let b ← toBytes? b
-    pure (match classReadOutcome b with | .ok _ => .ok (tag "u") | .err => .err | .panic s => .panic s, {})
+  | "classread", [b] => do let b ← toBytes? b; pure (u (classReadOp b).run unitS)
   | "code", [b] => do let b ← toBytes? b; pure (u (Code.codeOp b).run unitS)
   | "labels-full", [k] => do let k ← toNat? k; pure (u (Code.codeOp (labelsFullBody k)).run unitS)
-  | "anno", [b] => do let b ← toBytes? b; pure (u (Anno.annoOp stackBudget b).run ofNat)
-  | "anno-nest", [d] => do let d ← toNat? d; pure (u (Anno.annoOp stackBudget (Anno.nested d)).run ofNat)
-  | "dyn", spec => do let spec ← specOf spec; pure (u (Dyn.dynOp stackBudget spec).run ofNat)
-  | "dyn-chain", [k] => do let k ← toNat? k; pure (u (Dyn.dynOp stackBudget (chainSpec k)).run ofNat)
+  | "anno", [b] => do let b ← toBytes? b; pure (u (Anno.annoOp b).run ofNat)
+  | "anno-nest", [d] => do let d ← toNat? d; pure (u (Anno.annoOp (Anno.nested d)).run ofNat)
+  | "dyn", spec => do let spec ← specOf spec; pure (u (Dyn.dynOp spec).run ofNat)
+  | "dyn-chain", [k] => do let k ← toNat? k; pure (u (Dyn.dynOp (chainSpec k)).run ofNat)
   | "argsize", [d] => do let d ← toJStr? d; pure (u (Text.argSizeOp d).run unitS)
   | "writer-grow", [a, b] => do let a ← toNat? a; let b ← toNat? b; pure (u (Writer.growOp a b).run unitS)
   | "tiny", [n, b] => do let n ← toNat? n; let b ← toBytes? b; pure (u (Text.tinyOp n b).run unitS)
@@ -74,41 +62,9 @@ def runPlain (op : String) (args : List Sexp) : Option (Outcome Sexp × Acct) :=
   | "desc-return", [s] => do let s ← toJStr? s; pure (u (Text.descReturnOp s).run unitS)
   | _, _ => none
 
-/-- largest `length` of a Utf8 constant, walking the pool like `PoolRead::read`; `none` = malformed.  Fuel: every entry
-takes at least one slot. -/
-def maxUtf8Loop : Nat → Nat → Nat → Nat → Bytes → Option Nat
-  | 0, _, _, _, _ => none
-  | fuel + 1, n, count, best, s =>
-    if n < count then
-      match s with
-      | [] => none
-      | tag :: s =>
-        if tag = 1 then
-          match s with
-          | a :: b :: s => let l := a * 256 + b; if s.length < l then none else maxUtf8Loop fuel (n + 1) count (max best l) (s.drop l)
-          | _ => none
-        else
-          let sz : Option (Nat × Nat) :=
-            if tag = 3 ∨ tag = 4 then some (4, 1) else if tag = 5 ∨ tag = 6 then some (8, 2)
-            else if tag = 7 ∨ tag = 8 ∨ tag = 16 ∨ tag = 19 ∨ tag = 20 then some (2, 1)
-            else if tag = 9 ∨ tag = 10 ∨ tag = 11 ∨ tag = 12 ∨ tag = 17 ∨ tag = 18 then some (4, 1)
-            else if tag = 15 then some (3, 1) else none
-          match sz with
-          | some (size, slots) => if s.length < size then none else maxUtf8Loop fuel (n + slots) count best (s.drop size)
-          | none => none
-    else some best
-
-def maxUtf8Len (b : Bytes) : Option Nat :=
-  if b.length < 10 then none
-  else
-    match b.drop 8 with
-    | a :: c :: rest => maxUtf8Loop 65536 1 (a * 256 + c) 0 rest
-    | _ => none
-
-/-- domain of the writer oracle (mirrors `write_domain` of the harness): no descriptor can hold 255 argument slots
-(sites 7, 8), no method can grow to 65533 bytes (site 9) -/
-def writeDomain (b : Bytes) : Bool :=
-  b.length ≤ 24000 && (match maxUtf8Len b with | some m => m < 128 | none => false)
+/-- domain of the writer oracle (mirrors `write_domain` of the harness): no method can grow to 65533 bytes (site 9, still
+open) -/
+def writeDomain (b : Bytes) : Bool := b.length ≤ 24000
 
 def handleC16 (op : String) (args : List Sexp) : Option Ans :=
   match op, args with
@@ -120,19 +76,16 @@ def handleC16 (op : String) (args : List Sexp) : Option Ans :=
   | "oracle-write-no-panic", [b] => do
     let b ← toBytes? b
     pure (if !writeDomain b then .ok (tag "out-of-domain")
-      else match classReadOutcome b with
+      else match (classReadOp b).run.1 with
         | .ok _ => .ok (tag "pass")
         | _ => .ok (tag "out-of-domain"))
   | "oracle-alloc", [.atom "code", b] => do
     let b ← toBytes? b
     let r := (Code.codeOp b).run
-    let bound := 64 * b.length + 16777216
-    let verdict : Ans :=
-      if r.2.alloc > bound then .ok (list [tag "fail", tag "alloc"])   -- excluded by `alloc_bound_code`
-      else if r.2.big > bound then .ok (tag "out-of-domain")            -- site 6
-      else .ok (tag "pass")
+    -- `alloc_bound_code`: never more than `max 65535 (|body| + 2)` elements
+    let verdict : Ans := if r.2.alloc ≤ 64 * b.length + 16777216 then .ok (tag "pass") else .ok (list [tag "fail", tag "alloc"])
     pure (match r.1 with
-      | .panic s => if Sites.openIds.contains s then verdict else .ok (list [tag "fail", tag (Sites.report s)])
+      | .panic s => .ok (list [tag "fail", tag (Sites.report s)])
       | _ => verdict)
   | _, _ => do
     let r ← runPlain op args
